@@ -1165,7 +1165,7 @@ class Wrapc(util.WrapperMixin):
         if result_blk.return_type:
             fmt_func.C_return_type = wformat(
                 result_blk.return_type, fmt_result)
-        elif return_deref_attr == "scalar":
+        elif return_deref_attr == "scalar" and not result_blk.return_cptr:
             # Need a wrapper since it will dereference the return pointer.
             need_wrapper = True
             fmt_func.C_return_type = ast.gen_arg_as_c(
@@ -1252,7 +1252,8 @@ class Wrapc(util.WrapperMixin):
 
         if result_blk.ret:
             raw_return_code = result_blk.ret
-        elif return_deref_attr == "scalar":
+        elif (return_deref_attr == "scalar" and not result_blk.return_cptr
+              and C_subprogram == "function"):
             # dereference pointer to return scalar
             raw_return_code = ["return *{cxx_var};"]
         elif result_arg is None and C_subprogram == "function":
